@@ -42,17 +42,20 @@ type PageCandidate struct {
 // PageCandidatesMap stores a map of URL pattern to its associated list of PageLinkInfo's.
 type PageCandidatesMap map[string]PageCandidate
 
-func (pcm PageCandidatesMap) add(pagePattern pattern.PagePattern, link *info.PageLinkInfo) {
+// add returns true if the pattern was not in the map yet.
+func (pcm PageCandidatesMap) add(pagePattern pattern.PagePattern, link *info.PageLinkInfo) bool {
 	strPattern := pagePattern.String()
 	if entry, exist := pcm[strPattern]; exist {
 		entry.links = append(entry.links, link)
 		pcm[strPattern] = entry
-	} else {
-		pcm[strPattern] = PageCandidate{
-			pagePattern: pagePattern,
-			links:       []*info.PageLinkInfo{link},
-		}
+		return false
 	}
+
+	pcm[strPattern] = PageCandidate{
+		pagePattern: pagePattern,
+		links:       []*info.PageLinkInfo{link},
+	}
+	return true
 }
 
 // DetectionState keeps track of the detection state:
@@ -121,6 +124,7 @@ func newDetectionStateFromMonotonicNumbers(monotonicNumbers []*info.PageInfo, is
 	// Prepare candidates map
 	firstPageURL := ""
 	pageCandidates := make(PageCandidatesMap)
+	candidateOrder := []string{} // patterns in the order they were first seen
 	parsedURLs := make([]*nurl.URL, len(monotonicNumbers))
 
 	// First, try query components of URLs, looking out for first page URL.
@@ -148,11 +152,13 @@ func newDetectionStateFromMonotonicNumbers(monotonicNumbers []*info.PageInfo, is
 
 		queryPatterns := pattern.QueryParamPagePatternsFromURL(url)
 		for _, queryPattern := range queryPatterns {
-			pageCandidates.add(queryPattern, &info.PageLinkInfo{
+			if pageCandidates.add(queryPattern, &info.PageLinkInfo{
 				PageNumber:         page.PageNumber,
 				PageParamValue:     queryPattern.PageNumber(),
 				PosInAscendingList: i,
-			})
+			}) {
+				candidateOrder = append(candidateOrder, queryPattern.String())
+			}
 		}
 
 		if page.PageNumber == 1 {
@@ -170,18 +176,21 @@ func newDetectionStateFromMonotonicNumbers(monotonicNumbers []*info.PageInfo, is
 
 			pathPatterns := pattern.PathComponentPagePatternsFromURL(url)
 			for _, pathPattern := range pathPatterns {
-				pageCandidates.add(pathPattern, &info.PageLinkInfo{
+				if pageCandidates.add(pathPattern, &info.PageLinkInfo{
 					PageNumber:         page.PageNumber,
 					PageParamValue:     pathPattern.PageNumber(),
 					PosInAscendingList: i,
-				})
+				}) {
+					candidateOrder = append(candidateOrder, pathPattern.String())
+				}
 			}
 		}
 	}
 
 	// Determine which URL page pattern is valid with a valid, and the best, PageParamInfo.
 	state := &DetectionState{}
-	for strPattern, candidate := range pageCandidates {
+	for _, strPattern := range candidateOrder {
+		candidate := pageCandidates[strPattern]
 		if strPattern == acceptedPagePattern || len(candidate.links) > MaxPagingDocs ||
 			!candidate.pagePattern.IsValidFor(parsedDocURL) {
 			continue
